@@ -586,6 +586,10 @@ class CastUnmarshaller(AbstractUnmarshaller[T]):
         Args:
             val: The input value to unmarshal.
         """
+        # Short-circuit if we already have exactly the type we want: a member of a
+        #   str-mixin enum is text, and decoding its value ("1" -> 1) would lose the member.
+        if val.__class__ is self.t:
+            return val
         # Try to load the string, if this is JSON or a literal expression.
         decoded = serdes.load(val)
         # Short-circuit cast if we have the type we want.
